@@ -93,7 +93,8 @@ def profiles_for(pid, tier):
                                        w_bigjump=0), N(160, 1500)),
                 ("shared-ids", dict(base, apps=["a", "b"], shared_mailbox_ids=True, client_mailboxes=["m1", "m2"], w_add=16,
                                     w_open=14, w_claim=2, w_allocate=0), N(80, 600))],
-        "C03": [("general", dict(three, w_claim=16, w_release=8, w_close=8, w_restart=2, w_sweep=3, names=["1", "2", "7"]), N(200, 2000))],
+        "C03": [("general", dict(three, w_claim=16, w_release=8, w_close=8, w_restart=2, w_sweep=3, names=["1", "2", "7"]), N(200, 2000)),
+                ("late-claim", dict(_special="late-claim"), N(30, 200))],
         "C04": [("general", dict(three, w_allocate=14, w_claim=8, w_release=8, names=["1", "2", "3", "03", "٣", "12", "x"],
                                  w_sweep=2), N(160, 1500)),
                 ("fill", dict(_special="fill"), N(24, 120))],
@@ -167,6 +168,52 @@ def special_history(pid, profile, seed):
             draws = [r.choice([5, 1000, 1001, 999999, 123456]) for _ in range(r.choice([0, 3]))]
             h.append({"op": "recv", "c": c, "t": t + j, "msg": {"type": "allocate"}, "fresh": "g%d" % j,
                       "pick": r.randrange(1000), "draws": draws})
+        return h, {}
+    if kind == "late-claim":
+        # allocate, the nameplate is retired behind the allocator's back, somebody re-creates the
+        # name, and only then the allocator claims it
+        t = 8000
+        usage = r.random() < 0.5
+        h = [{"op": "cfg", "rebooted": t, "usage": usage, "allow_list": r.random() < 0.5, "blur": None}]
+        app = r.choice(["a", "b"])
+        pre = r.randrange(0, 3)           # names already taken, so the allocation is not always "1"
+        c = 0
+        for k in range(1, pre + 1):
+            c += 1
+            h += [{"op": "connect", "c": c},
+                  {"op": "recv", "c": c, "t": t, "msg": {"type": "bind", "appid": app, "side": "p"}},
+                  {"op": "recv", "c": c, "t": t, "msg": {"type": "claim", "nameplate": str(k)}, "fresh": "pre%d" % k}]
+        name = str(pre + 1)
+        c1 = c + 1
+        h += [{"op": "connect", "c": c1},
+              {"op": "recv", "c": c1, "t": t + 8, "msg": {"type": "bind", "appid": app, "side": "s1"}},
+              {"op": "recv", "c": c1, "t": t + 8, "msg": {"type": "allocate"}, "fresh": "alloc-mb", "pick": 0, "draws": []}]
+        how = r.choice(["sweep", "close", "release"])
+        t2 = t + 16
+        if how == "sweep":
+            t2 = t + 8 + (660 + r.choice([0, 1, 50])) * proto.TICKS
+            h.append({"op": "sweep", "now": t2, "fault": False})
+        elif how == "close":
+            h += [{"op": "connect", "c": c1 + 1},
+                  {"op": "recv", "c": c1 + 1, "t": t2, "msg": {"type": "bind", "appid": app, "side": "s1"}},
+                  {"op": "recv", "c": c1 + 1, "t": t2, "msg": {"type": "close", "mailbox": "alloc-mb", "mood": "lonely"}}]
+        else:
+            h += [{"op": "connect", "c": c1 + 1},
+                  {"op": "recv", "c": c1 + 1, "t": t2, "msg": {"type": "bind", "appid": app, "side": "s1"}},
+                  {"op": "recv", "c": c1 + 1, "t": t2, "msg": {"type": "release", "nameplate": name}}]
+        if r.random() < 0.3:
+            h.append({"op": "restart", "t": t2 + 8})     # the allocator must then reconnect
+            h += [{"op": "connect", "c": c1 + 5},
+                  {"op": "recv", "c": c1 + 5, "t": t2 + 8, "msg": {"type": "bind", "appid": app, "side": "s1"}}]
+            late = c1 + 5
+        else:
+            late = c1
+        h += [{"op": "connect", "c": c1 + 2},
+              {"op": "recv", "c": c1 + 2, "t": t2 + 16, "msg": {"type": "bind", "appid": app, "side": "s2"}},
+              {"op": "recv", "c": c1 + 2, "t": t2 + 16, "msg": {"type": "claim", "nameplate": name}, "fresh": "second-mb"},
+              {"op": "recv", "c": late, "t": t2 + 24, "msg": {"type": "claim", "nameplate": name}, "fresh": "third-mb"},
+              {"op": "recv", "c": late, "t": t2 + 32, "msg": {"type": "open", "mailbox": "second-mb"}},
+              {"op": "recv", "c": c1 + 2, "t": t2 + 40, "msg": {"type": "list"}}]
         return h, {}
     raise ValueError(kind)
 
